@@ -1,13 +1,16 @@
 (** Model of fabio's redirect routes (property C13):
     - route/target.go  [Target.BuildRedirectURL]                       -> [build_redirect_url]
+      (as repaired by fix e4368b6; the old function is kept as [build_redirect_url_unrepaired])
     - route/route.go   redirect option parsing (strconv.Atoi, 300-399) -> [redirect_code]
       (as repaired by fix fa24a7f; the old behaviour is kept as [redirect_code_unrepaired])
     - route/table.go   [Table.Lookup] host loop with the self-redirect skip -> [lookup_loop]
-      (as repaired by fixes 4431a54 and bcdacf0; the old loops are kept as [lookup_loop_unrepaired]
-      and [lookup_loop_hdr_only])
+      (as repaired by fixes 4431a54, bcdacf0 and ddf101c; the old loops are kept as
+      [lookup_loop_unrepaired], [lookup_loop_hdr_only] and [lookup_loop_shared])
     - proxy/http_proxy.go [HTTPProxy.ServeHTTP] redirect branch (http.Redirect) -> [serve]
-    - the RedirectURL field of the SHARED *route.Target, written by Lookup and read
-      later by ServeHTTP -> two atomic actions on a shared store, [run_sched].
+    - simultaneous requests: Lookup and the rest of ServeHTTP as two atomic actions per
+      request, [run_sched]; since fix ddf101c Lookup hands each request a copy of the redirect
+      target, nothing is shared (the shared RedirectURL field of the code before the fix is
+      kept as [run_sched_shared]).
     The pieces of net/url the code relies on (shouldEscape / escape / unescape /
     validEncoded / setPath / EscapedPath / URL.String for the path and host modes) are
     modelled executably below and are compared with the library on every harness case.
@@ -163,6 +166,42 @@ Definition build_redirect_url (t : target) (q : request) : url :=
   let rawpath := t_path t in
   let query := t_query t in
   (* treat case of $path not separated with a / from host *)
+  let '(host, path, rawpath) :=
+    if has_suffix host v_path
+    then (firstn (length host - length v_path) host, v_path, v_path)   (* RawPath too: fix e4368b6 *)
+    else (host, path, rawpath) in
+  (* remove / before $path in redirect url *)
+  let '(path, rawpath) :=
+    if contains path v_slash_path
+    then (replace_first path v_slash_path v_path, replace_first rawpath v_slash_path v_path)
+    else (path, rawpath) in
+  (* remove strip path, insert passed request path, set query *)
+  let '(path, rawpath, query) :=
+    if contains path v_path then
+      let rp := q_path q in
+      let rrp := if is_nil (q_rawpath q) then q_path q else q_rawpath q in
+      let '(rp, rrp) :=
+        if negb (is_nil (t_strip t)) then
+          (if has_prefix rp (t_strip t) then skipn (length (t_strip t)) rp else rp,
+           if has_prefix rrp (t_strip t) then skipn (length (t_strip t)) rrp else rrp)
+        else (rp, rrp) in
+      let '(rp, rrp) :=
+        if negb (is_nil (t_prepend t)) then (t_prepend t ++ rp, t_prepend t ++ rrp) else (rp, rrp) in
+      (replace_first path v_path rp, replace_first rawpath v_path rrp,
+       if is_nil query && negb (is_nil (q_query q)) then q_query q else query)
+    else (path, rawpath, query) in
+  let path := if is_nil path then [47] else path in
+  let host := if contains host v_host then replace_first host v_host (q_host q) else host in
+  mkUrl (t_scheme t) host path rawpath query.
+
+(* before fix e4368b6 the branch for $path glued to the host set Path only, RawPath stayed
+   empty and the raw request path was never substituted.  Used only by the refutation theorem. *)
+Definition build_redirect_url_unrepaired (t : target) (q : request) : url :=
+  let host := t_host t in
+  let path := t_path t in
+  let rawpath := t_path t in
+  let query := t_query t in
+  (* treat case of $path not separated with a / from host *)
   let '(host, path) :=
     if has_suffix host v_path then (firstn (length host - length v_path) host, v_path) else (host, path) in
   (* remove / before $path in redirect url *)
@@ -240,23 +279,41 @@ Definition is_self_unrepaired (u : url) (q : request) : bool :=
   beq (u_scheme u) (q_xfp q) && beq (u_host u) (q_host q) && beq (u_path u) (q_path q).
 
 (* [cands]: what t.lookup(h, path) yields for each matching host, then for "".
-   [cur] is the loop variable `target` (it survives the loop).  Result: the target
-   returned and the writes to Target.RedirectURL in program order.  A skipped
-   self-redirect is cleared before `continue` (fix: 4431a54). *)
-Fixpoint lookup_loop (q : request) (cands : list (option target)) (cur : option target)
+   [cur] is the loop variable `target` (it survives the loop).  For a redirect route Lookup
+   works on a per-request COPY of the shared target (fix: ddf101c) and returns that copy with
+   its own RedirectURL; the shared target is never written.  A skipped self-redirect is
+   cleared before `continue` (fix: 4431a54).  Result: the target and, for a redirect
+   target, the RedirectURL of the copy. *)
+Definition chosen := option (target * option url).
+Fixpoint lookup_loop (q : request) (cands : list (option target)) (cur : chosen) : chosen :=
+  match cands with
+  | [] => cur
+  | None :: r => lookup_loop q r None
+  | Some t :: r =>
+      if (t_code t =? 0)%Z then Some (t, None)
+      else
+        let u := build_redirect_url t q in
+        if is_self u q then lookup_loop q r None else Some (t, Some u)
+  end.
+Definition lookup (q : request) (cands : list (option target)) : chosen := lookup_loop q cands None.
+
+(* before fix ddf101c the URL was stored in the RedirectURL field of the SHARED target: the
+   loop with its writes to that field in program order ([lookup_shared], [serve_shared],
+   [run_sched_shared] below).  Used only by the refutation theorem. *)
+Fixpoint lookup_loop_shared (q : request) (cands : list (option target)) (cur : option target)
   : option target * list (nat * url) :=
   match cands with
   | [] => (cur, [])
-  | None :: r => lookup_loop q r None
+  | None :: r => lookup_loop_shared q r None
   | Some t :: r =>
       if (t_code t =? 0)%Z then (Some t, [])
       else
         let u := build_redirect_url t q in
         if is_self u q then
-          let '(res, ws) := lookup_loop q r None in (res, (t_id t, u) :: ws)
+          let '(res, ws) := lookup_loop_shared q r None in (res, (t_id t, u) :: ws)
         else (Some t, [(t_id t, u)])
   end.
-Definition lookup (q : request) (cands : list (option target)) := lookup_loop q cands None.
+Definition lookup_shared (q : request) (cands : list (option target)) := lookup_loop_shared q cands None.
 
 (* before fix 4431a54 the loop variable kept pointing at the skipped target.  Used only by
    the refutation theorem. *)
@@ -293,16 +350,6 @@ Fixpoint lookup_loop_hdr_only (q : request) (cands : list (option target)) (cur 
 Definition lookup_hdr_only (q : request) (cands : list (option target)) := lookup_loop_hdr_only q cands None.
 
 (* ------------------------------------------------------------------ *)
-(** * shared targets: the RedirectURL fields *)
-Definition store := list (nat * url).          (* most recent write first *)
-Fixpoint store_get (st : store) (id : nat) : option url :=
-  match st with
-  | [] => None
-  | (k, u) :: r => if Nat.eqb k id then Some u else store_get r id
-  end.
-Definition store_apply (st : store) (ws : list (nat * url)) : store := rev ws ++ st.
-
-(* ------------------------------------------------------------------ *)
 (** * proxy/http_proxy.go: ServeHTTP after Lookup (no deny rules, no auth scheme) *)
 Inductive response :=
 | RNoRoute                              (* 404 *)
@@ -310,11 +357,12 @@ Inductive response :=
 | RBadCode (code : Z)                   (* http.Redirect -> WriteHeader panics: code outside 100..999 *)
 | RProxy (id : nat).                    (* request handed to the upstream transport *)
 
-Definition serve (chosen : option target) (st : store) : response :=
-  match chosen with
+(* `t.RedirectCode != 0 && t.RedirectURL != nil` on what Lookup returned *)
+Definition serve (c : chosen) : response :=
+  match c with
   | None => RNoRoute
-  | Some t =>
-      match (t_code t =? 0)%Z, store_get st (t_id t) with
+  | Some (t, ou) =>
+      match (t_code t =? 0)%Z, ou with
       | false, Some u =>
           if (t_code t <? 100)%Z || (t_code t >? 999)%Z then RBadCode (t_code t)
           else RRedirect (t_code t) (hex_escape_non_ascii (url_string u))
@@ -323,20 +371,39 @@ Definition serve (chosen : option target) (st : store) : response :=
   end.
 Definition upstream_calls (r : response) : nat := match r with RProxy _ => 1 | _ => 0 end.
 
-(* one request handled alone *)
-Definition handle (q : request) (cands : list (option target)) (st : store) : response * store :=
-  let '(chosen, ws) := lookup q cands in
-  let st' := store_apply st ws in
-  (serve chosen st', st').
+(* one request *)
+Definition handle (q : request) (cands : list (option target)) : response := serve (lookup q cands).
 
 (* ------------------------------------------------------------------ *)
-(** * simultaneous requests: Lookup and the rest of ServeHTTP are two atomic actions *)
+(** * the request with its header fields *)
+(* ServeHTTP answers a redirect target BEFORE it reads `Upgrade` and `Accept` (which choose
+   between the websocket, the event-stream and the plain proxy handler for an upstream
+   target): the header fields reach [serve_hdr] and are not consulted on the redirect branch;
+   for an upstream target they only choose the kind of proxy handler, which C13 does not
+   distinguish ([RProxy]).  Of the header fields Lookup reads Host (req.Host) and
+   X-Forwarded-Proto (self-redirect test). *)
+Definition headers := list (str * str).
+Fixpoint header_get (hs : headers) (name : str) : str :=      (* http.Header.Get: first value, "" if absent *)
+  match hs with
+  | [] => []
+  | (k, v) :: r => if beq (lower k) (lower name) then v else header_get r name
+  end.
+Definition h_xfp : str := [88;45;70;111;114;119;97;114;100;101;100;45;80;114;111;116;111].  (* X-Forwarded-Proto *)
+Definition serve_hdr (hs : headers) (c : chosen) : response := serve c.
+Definition request_of (hs : headers) (host path rawpath query : str) (tls : bool) : request :=
+  mkReq host path rawpath query (header_get hs h_xfp) tls.
+Definition handle_full (hs : headers) (host path rawpath query : str) (tls : bool)
+           (cands : list (option target)) : response :=
+  serve_hdr hs (lookup (request_of hs host path rawpath query tls) cands).
+
+(* ------------------------------------------------------------------ *)
+(** * simultaneous requests: Lookup and the rest of ServeHTTP are two atomic actions; the
+      only state that survives a Lookup is what it returned to its own request *)
 Inductive action := ALookup (r : nat) | AServe (r : nat).
 Record world := mkWorld {
-  w_store : store;
-  w_chosen : list (nat * option target);     (* per request: what its Lookup returned *)
+  w_chosen : list (nat * chosen);            (* per request: what its Lookup returned *)
   w_out : list (nat * response) }.           (* responses, most recent first *)
-Fixpoint chosen_get (l : list (nat * option target)) (r : nat) : option (option target) :=
+Fixpoint chosen_get {A} (l : list (nat * A)) (r : nat) : option A :=
   match l with
   | [] => None
   | (k, c) :: l' => if Nat.eqb k r then Some c else chosen_get l' r
@@ -347,16 +414,51 @@ Definition step (reqs : list (request * list (option target))) (w : world) (a : 
   | ALookup r =>
       match nth_error reqs r with
       | None => w
-      | Some (q, cands) =>
-          let '(chosen, ws) := lookup q cands in
-          mkWorld (store_apply (w_store w) ws) ((r, chosen) :: w_chosen w) (w_out w)
+      | Some (q, cands) => mkWorld ((r, lookup q cands) :: w_chosen w) (w_out w)
       end
   | AServe r =>
       match chosen_get (w_chosen w) r with
       | None => w                          (* not looked up yet: not a run of the program *)
-      | Some c => mkWorld (w_store w) (w_chosen w) ((r, serve c (w_store w)) :: w_out w)
+      | Some c => mkWorld (w_chosen w) ((r, serve c) :: w_out w)
       end
   end.
 Definition run_sched (reqs : list (request * list (option target))) (sched : list action) (w : world) : world :=
   fold_left (step reqs) sched w.
-Definition world0 : world := mkWorld [] [] [].
+Definition world0 : world := mkWorld [] [].
+
+(* ------------------------------------------------------------------ *)
+(** * before fix ddf101c: the RedirectURL fields of the shared targets as global state *)
+Definition store := list (nat * url).          (* most recent write first *)
+Fixpoint store_get (st : store) (id : nat) : option url :=
+  match st with
+  | [] => None
+  | (k, u) :: r => if Nat.eqb k id then Some u else store_get r id
+  end.
+Definition store_apply (st : store) (ws : list (nat * url)) : store := rev ws ++ st.
+Definition serve_shared (c : option target) (st : store) : response :=
+  match c with
+  | None => RNoRoute
+  | Some t => serve (Some (t, store_get st (t_id t)))
+  end.
+Record world_shared := mkWorldS {
+  ws_store : store;
+  ws_chosen : list (nat * option target);
+  ws_out : list (nat * response) }.
+Definition step_shared (reqs : list (request * list (option target))) (w : world_shared) (a : action) : world_shared :=
+  match a with
+  | ALookup r =>
+      match nth_error reqs r with
+      | None => w
+      | Some (q, cands) =>
+          let '(c, ws) := lookup_shared q cands in
+          mkWorldS (store_apply (ws_store w) ws) ((r, c) :: ws_chosen w) (ws_out w)
+      end
+  | AServe r =>
+      match chosen_get (ws_chosen w) r with
+      | None => w
+      | Some c => mkWorldS (ws_store w) (ws_chosen w) ((r, serve_shared c (ws_store w)) :: ws_out w)
+      end
+  end.
+Definition run_sched_shared (reqs : list (request * list (option target))) (sched : list action) (w : world_shared) : world_shared :=
+  fold_left (step_shared reqs) sched w.
+Definition world_shared0 : world_shared := mkWorldS [] [] [].
